@@ -348,11 +348,22 @@ func (env Env) represent(e *effective, name string, v int64, visited map[string]
 		tr.add("unknown-style")
 		return env.represent(env.resolve("decimal"), "decimal", v, visited, tr)
 	}
+	// extendsChain lists the names a style extends, transitively.
+	extendsChain := func(n string) []string {
+		var out []string
+		for cur, k := env[n], 0; cur != nil && cur.system() == "extends" && k < 16; cur, k = env[cur.Extends], k+1 {
+			out = append(out, cur.Extends)
+		}
+		return out
+	}
 	if name != "" {
 		if len(visited) > 0 && tr != nil {
-			// names on the extends chain of a style reached through fallback (feature detection only)
-			for cur, n := env[name], 0; cur != nil && cur.system() == "extends" && n < 16; cur, n = env[cur.Extends], n+1 {
-				visited["\x00"+cur.Extends] = true
+			// Feature detection only (finding F12): keys "\x00"+n emulate the single set in which the
+			// code under test records both the styles of the fallback chain (except the first) and
+			// every style they extend.
+			visited["\x00"+name] = true
+			for _, n := range extendsChain(name) {
+				visited["\x00"+n] = true
 			}
 		}
 		visited[name] = true
@@ -370,14 +381,24 @@ func (env Env) represent(e *effective, name string, v int64, visited map[string]
 				depth++
 			}
 		}
+		if env[fb] != nil && tr != nil {
+			if !visited[fb] && visited["\x00"+fb] {
+				tr.add("fallback-extends-interference")
+			}
+			if !visited["\x00"+fb] {
+				for _, n := range extendsChain(fb) {
+					if visited["\x00"+n] {
+						tr.add("fallback-extends-interference")
+					}
+				}
+			}
+		}
 		if env[fb] == nil {
 			tr.add("fallback-undefined")
 			fb = "decimal"
 		} else if visited[fb] { // a fallback loop -> decimal
 			tr.add("fallback-loop")
 			fb = "decimal"
-		} else if visited["\x00"+fb] {
-			tr.add("fallback-to-extends-ancestor")
 		}
 		if depth >= 2 {
 			tr.add("fallback-chain>=2")
